@@ -420,6 +420,43 @@ pub fn run(tier: Tier) -> i32 {
 }
 
 pub fn replay(case: &Value) -> i32 {
-    println!("C14 replay of {}: the cases are deterministic; re-running the quick tier", case);
-    run(Tier::Quick)
+    // generic cases: the whole generic part is run again (it takes about a second and contains the recorded grid and point);
+    // model cases: the recorded model is run again under every unit declaration and every grid
+    let c = if case.get("case").is_some() { &case["case"] } else { case };
+    let mut st = Stats::new();
+    match c["kind"].as_str() {
+        Some(k) if k.starts_with("model") => {
+            let name = c["model"].as_str().unwrap_or("");
+            match model_files(Tier::Thorough).into_iter().find(|m| m.0 == name) {
+                None => {
+                    println!("MACHINERY-ERROR model {} not found", name);
+                    return 2;
+                }
+                Some((name, path, eru)) => {
+                    for (su, gu, eru) in [
+                        (SpeedUnit::MilesPerHour, GradeUnit::Decimal, eru),
+                        (SpeedUnit::KilometersPerHour, GradeUnit::Decimal, eru),
+                        (SpeedUnit::MilesPerHour, GradeUnit::Percent, EnergyRateUnit::KilowattHoursPerKilometer),
+                        (SpeedUnit::MetersPerSecond, GradeUnit::Decimal, EnergyRateUnit::KilowattHoursPerMeter),
+                    ] {
+                        check_model(&name, &path, su, gu, eru, Tier::Thorough, &mut st);
+                    }
+                }
+            }
+        }
+        Some(_) => generic(Tier::Thorough, &mut st),
+        None => {
+            println!("C14 replay: unknown kind of case; re-running the quick tier");
+            return run(Tier::Quick);
+        }
+    }
+    for (k, g) in st.violations.iter() {
+        println!("REPLAY-VIOLATION {} ({} cases) {}", k, g.count, g.detail);
+    }
+    println!("replay: {} violated clauses over {} evaluations", st.violations.len(), st.evaluations);
+    if st.violations.is_empty() {
+        0
+    } else {
+        1
+    }
 }
